@@ -35,18 +35,22 @@ def chain_codes():
 
 
 BOUNDARY_INDEXES = [0, 1, H - 1, H, H + 1, 2 ** 32 - 1]
+# numbers the library itself uses as path components (purposes, coin types, BIP85 root and applications) and the
+# byte boundaries of ser32: an index that coincides with one of them must be treated like any other index
+MAGIC = [44, 49, 84, 2, 32, 39, 12, 24, 128169, 707764, 83696968, 255, 256, 65535, 65536, 2 ** 24 - 1, 2 ** 24]
 
 
 def indexes():
-    return st.one_of(st.sampled_from(BOUNDARY_INDEXES), st.integers(0, H - 1), st.integers(H, 2 ** 32 - 1))
+    return st.one_of(st.sampled_from(BOUNDARY_INDEXES), st.integers(0, H - 1), st.integers(H, 2 ** 32 - 1),
+                     st.sampled_from(MAGIC + [m + H for m in MAGIC]))
 
 
 def normal_indexes():
-    return st.one_of(st.sampled_from([0, 1, H - 1]), st.integers(0, H - 1))
+    return st.one_of(st.sampled_from([0, 1, H - 1]), st.integers(0, H - 1), st.sampled_from(MAGIC))
 
 
 def hardened_indexes():
-    return st.one_of(st.sampled_from([H, H + 1, 2 ** 32 - 1]), st.integers(H, 2 ** 32 - 1))
+    return st.one_of(st.sampled_from([H, H + 1, 2 ** 32 - 1]), st.integers(H, 2 ** 32 - 1), st.sampled_from([m + H for m in MAGIC]))
 
 
 def index_class(i):
